@@ -62,9 +62,17 @@ func (i *interpreter) boundsCheck(idx sym, n int) {
 	if i.ex.IntMode {
 		bad = c.Or(c.IntCmp("<", idx.t, c.IntC(0)), c.IntCmp(">=", idx.t, c.IntC(int64(n))))
 	} else {
-		bits, _, _ := kindInfo(idx.k)
-		// unsigned comparison covers negative values of signed indices too
-		bad = c.BVCmp("bvule", c.BVC(bits, uint64(n)), idx.t)
+		bits, signed, _ := kindInfo(idx.k)
+		if bits < 64 && uint64(n) > maskBits(bits) {
+			// every non-negative value of the index type is in range
+			if !signed {
+				return
+			}
+			bad = c.BVCmp("bvslt", idx.t, c.BVC(bits, 0))
+		} else {
+			// unsigned comparison covers negative values of signed indices too
+			bad = c.BVCmp("bvule", c.BVC(bits, uint64(n)), idx.t)
+		}
 	}
 	i.ex.requireNot(bad, fmt.Sprintf("index out of range [sym] with length %d", n))
 }
